@@ -366,13 +366,14 @@ let dispatch mode f =
     let alnums = set_of rest in
     let wss = set_of (match rest with _ :: r -> r | [] -> []) in
     let (chars, e) = utf8_decode (unhex data) in
-    if e <> EndOk then "UTF8" else begin
+    begin
       let (ops_n, regs_n, flags_n) = List.assoc arch (Lazy.force tabs) in
       let (optab, regtab, flagtab) = (match arch with
           | "z80" -> (z80_op_table, z80_reg_table, z80_flag_table)
           | "sm83" -> (sm83_op_table, sm83_reg_table, sm83_flag_table)
           | _ -> (mos_op_table, mos_reg_table, [])) in
-      let items = lex_all dir_table optab regtab flagtab
+      (* bytes that are not UTF-8: the lexer sees the characters of the valid prefix, then the failure *)
+      let items = (if e <> EndOk then lex_fault else lex_all) dir_table optab regtab flagtab
           (fun c -> List.mem (int_of_n c) alnums) (fun c -> List.mem (int_of_n c) wss) chars in
       let rev tab id = fst (List.find (fun (_, i) -> i = id) tab) in
       let dirname d = string_of_bytes (fst (List.find (fun (_, i) -> directive_of_id i = Some d) dir_names)) in
@@ -397,7 +398,7 @@ let dispatch mode f =
         | IErr (e, l) ->
           "E" ^ (match e with
               | EUnexpectedLineBreak -> "0" | EBadEscape -> "1" | EBadChar -> "2" | EBadBin -> "3" | EBadDec -> "4"
-              | EBadHex -> "5" | EUnrecognized -> "6" | EUnknownDirective -> "7" | EMalformedLabel -> "8") ^ at l in
+              | EBadHex -> "5" | EUnrecognized -> "6" | EUnknownDirective -> "7" | EMalformedLabel -> "8" | ERead -> "9") ^ at l in
       String.concat " " (List.map show items)
     end
   | "cli", [before; arch; after_args; oopen; paths_ok; img; exports] ->
